@@ -22,6 +22,7 @@ PROPS = {
     "C25": ("C25", {"internal"}),
     "C30": ("C30", {"rel:eq_outcome_c30"}),
     "C31": ("C31", {"guard:nil", "guard:counters", "guard:cost"}),
+    "C13": ("C13", {"cap", "outcome"}),
 }
 
 SIZES = {  # (shards, cases per shard)
